@@ -117,4 +117,4 @@ def setup():
     return 0 if ok else 2
 
 
-SETUP_EXTRA = []
+SETUP_EXTRA = [vmon_eval, replay_bin, lambda: vmon('default', 'vdev', 'asan'), lambda: vmon('default', 'vdev', 'tsan')]
